@@ -13,6 +13,7 @@ import (
 	"github.com/maypok86/otter/v2/internal/expiration"
 	"github.com/maypok86/otter/v2/internal/generated/node"
 	"github.com/maypok86/otter/v2/internal/hashmap"
+	"github.com/maypok86/otter/v2/stats"
 )
 
 // ---------------------------------------------------------------------------------------------
@@ -158,6 +159,8 @@ func ghost_calls_bulkRefreshKeys() int                                     { pan
 func ghost_calls_BulkLoad() int                                            { panic("ghost") }
 func ghost_calls_newPanicError() int                                       { panic("ghost") }
 func ghost_calls_BulkReload() int                                          { panic("ghost") }
+func ghost_calls_Load() int                                                { panic("ghost") }
+func ghost_calls_Reload() int                                              { panic("ghost") }
 
 // ghost_waited(c): this operation has waited for call c (so c's outcome fields are final)
 func ghost_waited[K comparable, V any](c *call[K, V]) bool { panic("ghost") }
@@ -435,7 +438,7 @@ func estOf[K comparable](s *sketch[K], k K) uint64 {
 
 //@ macro CACHEFX = $CACHEFX0, ghost_wgDone(*), ghost_released(*), call::wg
 
-//@ macro LOADFX = $CACHEFX, call::value, call::err, call::isNotFound, ghost_calls_load(), ghost_calls_afterFinish(), ghost_calls_doCall(), ghost_calls_startCall(), ghost_loadSuccess(), ghost_loadFailure(), ghost_calls_fn(), ghost_ret_fn(), ghost_calls_Error(), ghost_calls_wait(), ghost_waited(*), ghost_calls_newPanicError(), ghost_calls_BulkLoad(), ghost_calls_BulkReload()
+//@ macro LOADFX = $CACHEFX, call::value, call::err, call::isNotFound, ghost_calls_load(), ghost_calls_afterFinish(), ghost_calls_doCall(), ghost_calls_startCall(), ghost_loadSuccess(), ghost_loadFailure(), ghost_calls_fn(), ghost_ret_fn(), ghost_calls_Error(), ghost_calls_wait(), ghost_waited(*), ghost_calls_newPanicError(), ghost_calls_BulkLoad(), ghost_calls_BulkReload(), ghost_calls_Load(), ghost_calls_Reload()
 
 //@ immutable Cache.cache, cache.nodeManager, cache.hashmap, cache.evictionPolicy, cache.expirationPolicy, cache.stats, cache.clock, cache.singleflight, cache.withTime, cache.withExpiration, cache.withRefresh, cache.withEviction, cache.isWeighted, cache.withMaintenance, cache.withStats, cache.onDeletion, cache.onAtomicDeletion, cache.expiryCalculator, cache.refreshCalculator, cache.weigher, cache.executor, cache.readBuffer, cache.writeBuffer, cache.hasDefaultExecutor, policy.isWeighted, policy.sketch, policy.window, policy.probation, policy.protected, group.calls, G:hasExp, G:hasRefresh, G:hasWeight, G:hasSize, G:hasState, G:hasExpLinks, G:key, G:value, G:weight, call.key, call.isRefresh, call.isFake
 
@@ -663,7 +666,7 @@ func estOf[K comparable](s *sketch[K], k K) uint64 {
 //@   ensures [clock-stable] pre(ghost_clockRead()) ==> ghost_clockRead() && ghost_now() == pre(ghost_now())
 //@   ensures [wiring-kept] pre(wired(c)) ==> wired(c)
 
-//@ func (*cache).SetRefreshableAfter : C12 C03 C01 C20
+//@ func (*cache).SetRefreshableAfter : C12 C03 C01 C20 C11
 //@   counted
 //@   requires cfg(c)
 //@   modifies ghost_now(), ghost_clockRead(), ghost_tbl(c.hashmap, key).refreshableAt
@@ -1111,7 +1114,10 @@ func estOf[K comparable](s *sketch[K], k K) uint64 {
 //@   counted
 //@   panics
 //@   requires c != nil && ghost_calls_load() == 0
-//@   modifies c.value, c.err, c.isNotFound, ghost_calls_load(), ghost_calls_afterFinish(), ghost_calls_newPanicError(), $CACHEFX
+//@   modifies c.value, c.err, c.isNotFound, ghost_calls_load(), ghost_calls_afterFinish(), ghost_calls_newPanicError(), ghost_calls_Load(), ghost_calls_Reload(), $CACHEFX
+//@   callback load: modifies ghost_calls_Load(), ghost_calls_Reload()
+//@   callback load: ensures [C20:the-load-callback-invokes-the-user-loader-exactly-once] ghost_calls_Load()+ghost_calls_Reload() == pre(ghost_calls_Load()+ghost_calls_Reload()) + 1
+//@   ensures [C20:a-recorded-load-is-exactly-one-loader-invocation] ghost_calls_Load()+ghost_calls_Reload() == pre(ghost_calls_Load()+ghost_calls_Reload()) + 1
 //@   callback afterFinish: requires [C08:finish-after-load] cb_c == c && ghost_calls_load() == 1
 //@   callback afterFinish: modifies $CACHEFX
 //@   callback afterFinish: ensures [clock-stable] pre(ghost_clockRead()) ==> ghost_clockRead() && ghost_now() == pre(ghost_now())
@@ -1121,7 +1127,7 @@ func estOf[K comparable](s *sketch[K], k K) uint64 {
 //@   ensures [C10:error-recorded] c.err == err && c.isNotFound == errors.Is(err, ErrNotFound)
 //@   ensures on-panic [C20:a-loader-panic-is-returned-as-an-error-never-raised-past-the-load-accounting] false
 //@   ensures [C10:loader-outcome-recorded-unchanged] ghost_calls_newPanicError() == pre(ghost_calls_newPanicError()) ==> err == ghost_ret_load_1() && same(c.value, ghost_ret_load_0[V]())
-//@   own-modifies c.value, c.err, c.isNotFound, ghost_calls_load(), ghost_calls_newPanicError()
+//@   own-modifies c.value, c.err, c.isNotFound, ghost_calls_load(), ghost_calls_newPanicError(), ghost_calls_Load(), ghost_calls_Reload()
 
 //@ func (*call).wait : C08 C10
 //@   assumed definition of the ghost ghost_waited: sync.WaitGroup.Wait returns only after the call's Done, i.e. after its outcome fields are final
@@ -1355,6 +1361,7 @@ func estOf[K comparable](s *sketch[K], k K) uint64 {
 //@   requires c != nil && c.cache != nil && cfg(c.cache) && c.cache.singleflight != nil
 //@   modifies *
 //@   site SaveCacheTo$1.Encode: requires [C19:only-live-entries-within-the-bound-are-saved] size < maximum && (!c.cache.withExpiration || entry.ExpiresAtNano > entry.SnapshotAtNano)
+//@   site SaveCacheTo$1.return: requires [C19:the-cutoff-counts-the-weight-saved-so-far] err == nil ==> size == iter(size) + uint64(entry.Weight)
 
 //@ func (*group).doBulkCall : C10 C08 C01 C11
 //@   counted
@@ -1522,6 +1529,21 @@ func estOf[K comparable](s *sketch[K], k K) uint64 {
 //@ func (*Cache).GetIfPresent : C01 C03 C20
 //@   modifies *
 //@   delegates (*cache).GetIfPresent on c.cache
+
+// has (used by the extension hooks): present exactly when a lookup finds a live entry
+//@ func (*cache).has : C01 C03
+//@   requires cfg(c)
+//@   modifies *
+//@   ensures [C03:has-iff-live] result == liveAt(pre(ghost_tbl(c.hashmap, key)), pre(ghost_expiresAt(ghost_tbl(c.hashmap, key))), ghost_now())
+//@   ensures [wiring-kept] pre(wired(c)) ==> wired(c)
+
+//@ func (*Cache).has : C01 C03
+//@   modifies *
+//@   delegates (*cache).has on c.cache
+
+//@ func (*Cache).InvalidateAll : C01 C03 C05 C06
+//@   modifies *
+//@   delegates (*cache).InvalidateAll on c.cache
 
 //@ func (*Cache).GetEntry : C01 C03 C20
 //@   modifies *
@@ -1790,6 +1812,61 @@ func asRealSource(t Clock) *realSource {
 // ---------------------------------------------------------------------------------------------
 // Construction: how the options become the configuration that every other contract assumes (cfg / wired)
 // ---------------------------------------------------------------------------------------------
+
+// validOptions: exactly what Options.validate accepts.
+func validOptions[K comparable, V any](o *Options[K, V]) bool {
+	return !(o.MaximumSize > 0 && o.MaximumWeight > 0) && !(o.MaximumSize > 0 && o.Weigher != nil) &&
+		!(o.MaximumWeight > 0 && o.Weigher == nil) && !(o.Weigher != nil && o.MaximumWeight == 0) &&
+		o.MaximumSize >= 0 && o.InitialCapacity >= 0
+}
+
+func asNoopRecorder(r stats.Recorder) *stats.NoopRecorder {
+	c, _ := r.(*stats.NoopRecorder)
+	return c
+}
+
+//@ func (*Options).validate : C01 C04
+//@   ensures [C01:accepts-exactly-the-valid-options] (result == nil) == validOptions(o)
+
+// newCache is the base case of the induction behind every other contract: it establishes cfg(c) (the feature flags of
+// the cache agree with the node variant in use, and the structures the configuration asks for exist and are
+// well-formed) from options that validate accepted.
+//@ func (*Options).getExecutor : C01
+//@   ensures [configured-executor] o.Executor != nil ==> same(result, o.Executor)
+
+//@ func (*Options).getWeigher : C04
+//@   ensures [C04:configured-weigher] o.Weigher != nil ==> same(result, o.Weigher)
+//@   ensures [a-weigher-exists] result != nil
+
+//@ func (*Options).getLogger : C01
+//@   ensures [a-logger-exists] result != nil
+
+//@ func (*Options).getInitialCapacity : C01
+//@   ensures [configured-capacity] result == pickInt(o.InitialCapacity > 0, o.InitialCapacity, defaultInitialCapacity)
+
+//@ func newCache : C01 C03 C04 C05 C06 C12 C13 C20
+//@   var kstar K
+//@   var arg0 node.Config
+//@   site NewManager: assume [A-dispatch] node.SpecFlagsOf(arg0)
+//@   requires o != nil && validOptions(o) && o.MaximumWeight <= 1<<62 && o.MaximumSize <= 1<<62
+//@   modifies *
+//@   ensures [C01:construction-establishes-the-configuration] result != nil && cfg(result)
+//@   ensures [C01:features-follow-the-options] result.withExpiration == (o.ExpiryCalculator != nil) && result.withRefresh == (o.RefreshCalculator != nil) && result.isWeighted == (o.MaximumWeight > 0) && result.withEviction == (o.MaximumSize > 0 || o.MaximumWeight > 0)
+//@   ensures [C12:calculators-are-the-configured-ones] result.expiryCalculator == o.ExpiryCalculator && result.refreshCalculator == o.RefreshCalculator
+//@   ensures [C06:handlers-are-the-configured-ones] same(result.onDeletion, o.OnDeletion) && same(result.onAtomicDeletion, o.OnAtomicDeletion)
+//@   ensures [C04:configured-maximum-in-force] result.withEviction ==> result.evictionPolicy.maximum == pickU64(o.MaximumSize > 0, uint64(o.MaximumSize), o.MaximumWeight) && result.evictionPolicy.isWeighted == (o.MaximumWeight > 0)
+//@   ensures [C04:weigher-is-the-configured-one] o.Weigher != nil ==> same(result.weigher, o.Weigher)
+//@   ensures [C20:recording-iff-a-real-recorder] result.withStats == (o.StatsRecorder != nil && asNoopRecorder(o.StatsRecorder) == nil) && (result.withStats ==> result.stats == o.StatsRecorder)
+//@   ensures [C01:starts-empty] ghost_tbl(result.hashmap, kstar) == nil
+
+// New: options that validate refuses yield an error and no cache; everything else yields a cache that satisfies the
+// configuration invariant every operation's contract assumes. (The 2^62 bound on the maximum is a requirement on the
+// options: the policy's window arithmetic is proved for maxima up to it.)
+//@ func New : C01 C04
+//@   requires o == nil || (o.MaximumWeight <= 1<<62 && o.MaximumSize <= 1<<62)
+//@   modifies *
+//@   ensures [C01:invalid-options-are-refused] o != nil && !pre(validOptions(o)) ==> r0 == nil && r1 != nil
+//@   ensures [C01:valid-options-yield-a-well-formed-cache] (o == nil || pre(validOptions(o))) ==> r1 == nil && r0 != nil && r0.cache != nil && cfg(r0.cache)
 
 //@ func (*Options).getMaximum : C04 C07
 //@   ensures [C04:maximum-from-options] result == pickU64(o.MaximumSize > 0, uint64(o.MaximumSize), pickU64(o.MaximumWeight > 0, o.MaximumWeight, 0))
